@@ -16,7 +16,7 @@ fn gen(r: &mut Rng, corpus: &[String]) -> Case {
     let n = r.range(2, 8);
     let cfg = RuleCfg { max_side: 2, ..RuleCfg::default() };
     // only rules that parse (a sequence with one unparsable rule fails as a whole and exercises nothing)
-    let rules: Vec<String> = (0..n).map(|_| { for _ in 0..6 { let x = if !corpus.is_empty() && r.chance(1, 3) { r.pick(corpus).clone() } else { plain(&rand_rule(r, &cfg)) }; if compile1(&x).is_ok() { return x } } "a > a".to_string() }).collect();
+    let rules: Vec<String> = (0..n).map(|_| { for _ in 0..6 { let x = if !corpus.is_empty() && r.chance(1, 3) { r.pick(corpus).clone() } else if r.chance(1, 4) { r.pick(&crate::c08::TEMPLATES).to_string() } else { plain(&rand_rule(r, &cfg)) }; if compile1(&x).is_ok() { return x } } "a > a".to_string() }).collect();
     let mut word = rand_word(r, &WordCfg::default());
     match r.below(12) {
         0 => { word = word.replacen(['t', 's'], "¢", 1) }
